@@ -163,3 +163,28 @@ def fee_on_route(rnd, n, sid="F"):
         steps.append({"op": "skip", "n": 2})
         out.append({"id": "%s%d" % (sid, k), "world": "W5", "family": "markets", "steps": steps})
     return out
+
+
+def from_pool_model(raw):
+    """behaviours of MCPools.tla (amounts in pip) -> transactions on the pair PZERO/PONE of world WP, one per block"""
+    out = []
+    who = {"u1": "a1", "u2": "a2"}
+    big = "900000000000000000000"
+    for i, ms in enumerate(raw):
+        steps = []
+        for k, s in enumerate(ms):
+            t = {"id": "t%d" % (k + 1), "from": who[s["u"]], "check": True}
+            if s["op"] == "create":
+                t.update(type="CreateSwapPool", args={"c0": "PZERO", "c1": "PONE", "v0": s["a0"], "v1": s["a1"]})
+            elif s["op"] == "sell":
+                t.update(type="SellSwapPool", args={"coins": ["PZERO", "PONE"] if s["dir"] == 0 else ["PONE", "PZERO"], "value": s["in"], "min": "0"})
+            elif s["op"] == "buy":
+                t.update(type="BuySwapPool", args={"coins": ["PZERO", "PONE"] if s["dir"] == 0 else ["PONE", "PZERO"], "value": s["out"], "max": big})
+            elif s["op"] == "add":
+                t.update(type="AddLiquidity", args={"c0": "PZERO", "c1": "PONE", "v0": s["a0"], "max1": big})
+            else:
+                t.update(type="RemoveLiquidity", args={"c0": "PZERO", "c1": "PONE", "liquidity": s["liq"], "min0": "0", "min1": "0"})
+            steps.append({"op": "block", "txs": [t]})
+        steps.append({"op": "block"})
+        out.append({"id": "PM%d" % i, "world": "WP", "family": "markets", "steps": steps})
+    return out
